@@ -200,10 +200,15 @@ class WeightedForest(Forest):
             u = self.cc()
             return u[self.isleaf()]
 
-        sh = np.sort(self.height)
-        th = sh[nbcc - k]
-        u = self.partition(th)
-        return u
+        # cut the k - nbcc highest nodes; among equal heights the nodes created
+        # last (the parents) are cut first, so that exactly k trees remain
+        k = min(k, int(np.sum(self.isleaf())))
+        order = np.argsort(self.height, kind='stable')
+        valid = np.ones(self.V, dtype=bool)
+        valid[order[self.V - (k - nbcc):]] = False
+        f = self.subforest(valid)
+        u = f.cc()
+        return u[f.isleaf()]
 
     def plot_height(self):
         """Plot the height of the non-leaves nodes
@@ -357,7 +362,8 @@ def average_link_graph(G):
         fusion(K, pop, i, j, k)
 
     height[height < 0] = 0
-    height[np.isinf(height)] = height[n] + 1
+    # leaves sit below the first merge; no merge at all when G has no edge
+    height[np.isinf(height)] = height[n] + 1 if nbcc < n else 0
     t = WeightedForest(2 * n - nbcc, parent, - height)
     return t
 
@@ -692,7 +698,7 @@ def ward_quick(G, feature, verbose=False):
 
             ml = linc[j]
             if np.sum(K.edges[ml, 1] == i) > 0:
-                m = ml[int(np.flatnonzero(K.edges[ml, 1] == i))]
+                m = ml[int(np.flatnonzero(K.edges[ml, 1] == i)[0])]
                 K.edges[m] = -1
                 K.weights[m] = np.inf
                 linc[j].remove(m)
@@ -789,7 +795,7 @@ def ward_quick_segment(G, feature, stop=-1, qmax=1, verbose=False):
     n = G.V
     if stop == - 1:
         stop = np.inf
-    qmax = int(np.minimum(qmax, n - 1))
+    qmax = int(np.minimum(qmax, n))
     t = ward_quick(G, feature, verbose)
     if verbose:
         t.plot()
@@ -858,7 +864,7 @@ def ward_segment(G, feature, stop=-1, qmax=1, verbose=False):
         qmax = n - 1
     if stop == -1:
         stop = np.inf
-    qmax = int(np.minimum(qmax, n - 1))
+    qmax = int(np.minimum(qmax, n))
 
     t = ward(G, feature, verbose)
     u1 = np.zeros(n, np.int_)
@@ -954,7 +960,7 @@ def ward(G, feature, verbose=False):
 
         ml = linc[j]
         if np.sum(K.edges[ml, 1] == i) > 0:
-            m = ml[int(np.flatnonzero(K.edges[ml, 1] == i))]
+            m = ml[int(np.flatnonzero(K.edges[ml, 1] == i)[0])]
             K.edges[m] = -1
             K.weights[m] = np.inf
             linc[j].remove(m)
